@@ -224,6 +224,9 @@ func Run(P *sx.Program, id, tier string, seed int64, verifDir string, verbose bo
 		fmt.Printf("FAILED obligation %s [%s] at %s: %s%s\n", o.Name, o.Status, o.Pos, o.Note, extra)
 		lines = append(lines, fmt.Sprintf("VIOLATION property=%s replay=%s obligation=%q%s", id, path, base, suffix))
 	}
+	if rep.Skipped > 0 {
+		rep.Errors = append(rep.Errors, fmt.Sprintf("%d further units were not explored after 8 units failed to generate their obligations", rep.Skipped))
+	}
 	seenErr := map[string]bool{}
 	for _, e := range rep.Errors {
 		key := e
